@@ -33,9 +33,9 @@ class AxisReduction:
             assert axis in "xyz"[:dim]
             index, _ = darsia.interpret_indexing(axis, "ijk"[:dim])
 
-        elif isinstance(axis, int):
+        elif isinstance(axis, (int, np.integer)):
             assert axis in range(dim)
-            index = axis
+            index = int(axis)
             index_alpha = "ijk"[:dim][index]
             cartesian_index, _ = darsia.interpret_indexing(index_alpha, "xyz"[:dim])
             axis = "xyz"[cartesian_index]
